@@ -146,6 +146,10 @@ def model_decides(ctx, name):
         elif name == "line-pattern":
             from rules.C08 import check_model
             res = check_model(ctx, Out("C10")) is True
+        elif name == "keep-sorted":
+            from rules.C06 import check_line_index, work_view
+            wv = work_view(ctx)
+            res = wv is not None and check_line_index(ctx, Out("C10"), wv) is True
     except Exception:       # noqa: BLE001
         res = False
     cache[name] = res
@@ -209,7 +213,10 @@ def run(ctx, out, tier):
             # the left offset as a length difference is right exactly when only the LEFT side was
             # trimmed: `line.len() - line.trim_start().len()`
             left_only = len_in_start and P.has_call(sc, r"<impl str>::trim_start$") and not P.has_call(sc, r"<impl str>::(trim|trim_end|trim_ascii|trim_ascii_end|trim_matches|trim_end_matches)$")
-            if ((ptr or left_only) and (rstart or not uses_regex)) and not rend_in_start and (not len_in_start or left_only):
+            # ... or the byte index of the first non-whitespace character (`char_indices().find(..)`: byte offsets;
+            # a position counted over `chars()` would be a char count - SH.units)
+            first_nonws = P.has_call(sc, r"<impl str>::char_indices$") and not P.has_call(sc, r"<impl str>::chars$") and not len_in_start
+            if ((ptr or left_only or first_nonws) and (rstart or not uses_regex)) and not rend_in_start and (not len_in_start or left_only):
                 n_cols += 1
             else:
                 what = []
